@@ -31,7 +31,7 @@ def generate(rng, tier, focus):
     ops = []
     kinds = ["copy", "copy", "deep_copy", "move", "move", "move_to", "rotate", "rotate", "set_pos", "set_vel", "set_ids",
              "set_resids", "set_names", "view", "view_assign", "view_assign", "system", "alignment", "atom_copy",
-             "residue_copy", "atoms_list", "read_centre", "read_centre"]
+             "residue_copy", "atoms_list", "read_centre", "read_centre", "move_to_partial", "move_axis"]
     for _ in range(n_ops):
         k = rng.choice(kinds)
         op = {"op": k, "pick": rng.randrange(10 ** 6), "seed": rng.randrange(2 ** 31)}
@@ -39,6 +39,15 @@ def generate(rng, tier, focus):
             op["d"] = gen.rvec(rng, rng.choice([0.1, 5.0]))
         elif k == "move_to":
             op["p"] = gen.rvec(rng, 10.0)
+        elif k == "move_to_partial":
+            # re-centring along one or two axes only: the target shares the other components EXACTLY with the current centre
+            op["keep"] = rng.sample([0, 1, 2], rng.randint(1, 2))
+            op["p"] = gen.rvec(rng, 10.0)
+        elif k == "move_axis":
+            d = gen.rvec(rng, rng.choice([0.1, 5.0]))
+            for ax in rng.sample([0, 1, 2], rng.randint(1, 2)):
+                d[ax] = 0.0
+            op["d"] = d
         elif k == "rotate":
             op["R"] = gen.random_rotation(rng).tolist()
         elif k == "set_vel":
@@ -53,7 +62,9 @@ def generate(rng, tier, focus):
             op["count"] = rng.randint(1, 4)
             op["how"] = rng.choice(["index", "iter", "slice", "twice"])
         ops.append(op)
-    return {"seeds": seeds, "ops": ops}
+    # how often the harness LOOKS: reading every object after every operation would keep any read-refreshed cache inside the
+    # library warm and hide staleness that real code (which does not look after every step) would meet
+    return {"seeds": seeds, "ops": ops, "verify_stride": rng.choice([1, 1, 1, 2, 4, 10 ** 6])}
 
 
 def abbreviate(trace):
@@ -72,11 +83,17 @@ class Model:
         self.objs = []         # dicts: kind, obj, cells, top, deep
         self.tops = {}         # top id -> number of tracked molecule-like objects sharing it
         self.next_top = 0
+        self.dirty = {}        # cell -> set(fields) predicted by the model but not yet observed (compared with tolerance)
+        self.stride = 1
+        self.since = 0
+        self.pending_labels = []
 
-    def new_cells(self, values):
+    def new_cells(self, values, src=None):
         ids = []
-        for v in values:
+        for k, v in enumerate(values):
             self.cells[self.next_cell] = dict(v)
+            if src is not None and src[k] in self.dirty:
+                self.dirty[self.next_cell] = set(self.dirty[src[k]])
             ids.append(self.next_cell)
             self.next_cell += 1
         return ids
@@ -162,6 +179,9 @@ def execute(trace, ctx):
                          "atomid": i + 1, "resid": s["resids"][i], "name": s["atom_names"][i], "resname": s["resnames"][i]})
         M.track("mol", mol, M.new_cells(vals), top=M.new_top(), note="seed")
     verify(ctx, M, touched=set(), expected=None, label="initial")
+    M.stride = int(trace.get("verify_stride", 1))
+    if M.stride > 1:
+        ctx.probe("lazy_verification")
     systems = []
 
     for i, op in enumerate(trace["ops"]):
@@ -179,7 +199,7 @@ def execute(trace, ctx):
                 k = cand[op["pick"] % len(cand)]
                 o = M.objs[k]
                 new = o["obj"].deep_copy() if kind == "deep_copy" else o["obj"].copy()
-                cells = M.new_cells(M.values_of(o))
+                cells = M.new_cells(M.values_of(o), src=o["cells"])
                 top = None
                 if o["kind"] in ("mol", "atom"):
                     top = M.new_top() if kind == "deep_copy" else o["top"]
@@ -192,24 +212,36 @@ def execute(trace, ctx):
                 if kind == "atoms_list":
                     atoms = o["obj"].atoms           # copies of the atoms
                     j = op["pick"] % len(atoms)
-                    M.track("atom", atoms[j], M.new_cells([M.cells[o["cells"][j]]]), top=o["top"], note="atoms[]")
+                    M.track("atom", atoms[j], M.new_cells([M.cells[o["cells"][j]]], src=[o["cells"][j]]), top=o["top"], note="atoms[]")
                 elif kind == "atom_copy":
                     j = op["pick"] % len(o["cells"])
-                    M.track("atom", o["obj"][j].copy(), M.new_cells([M.cells[o["cells"][j]]]), top=o["top"], note="atom.copy")
+                    M.track("atom", o["obj"][j].copy(), M.new_cells([M.cells[o["cells"][j]]], src=[o["cells"][j]]), top=o["top"], note="atom.copy")
                 else:
                     residues = o["obj"].residues
                     r = op["pick"] % len(residues)
                     start = sum(len(x) for x in residues[:r])
                     sub = o["cells"][start:start + len(residues[r])]
-                    M.track("res", residues[r].copy(), M.new_cells([M.cells[c] for c in sub]), note="residue.copy")
+                    M.track("res", residues[r].copy(), M.new_cells([M.cells[c] for c in sub], src=list(sub)), note="residue.copy")
                 ctx.op(kind)
                 verify(ctx, M, set(), None, kind)
-            elif kind in ("move", "move_to", "rotate"):
+            elif kind in ("move", "move_to", "rotate", "move_to_partial", "move_axis"):
                 k = bodies[op["pick"] % len(bodies)]
                 o = M.objs[k]
                 old = np.array([M.cells[c]["pos"] for c in o["cells"]])
                 centre = old.mean(axis=0)
-                if kind == "move":
+                if kind == "move_to_partial":
+                    # as user code does: read the centre, change some of its components, re-centre there
+                    p = np.array(o["obj"].geometric_center, dtype=float, copy=True)
+                    for ax in range(3):
+                        if ax not in op["keep"]:
+                            p[ax] = op["p"][ax]
+                    o["obj"].move_to(p)
+                    new = old + (p - centre)
+                    want_centre = p
+                    kind = "move_to"
+                    ctx.probe("move_to_sharing_components_with_centre")
+                elif kind in ("move", "move_axis"):
+                    kind = "move"
                     d = np.array(op["d"])
                     o["obj"].move(d)
                     new = old + d
@@ -467,7 +499,7 @@ def execute(trace, ctx):
                 if stored is o["obj"]:
                     ctx.violate(P, "alignment-stores-original", "Alignment stored the caller's molecule object itself")
                     continue
-                M.track("mol", stored, M.new_cells(M.values_of(o)), top=o["top"], note="alignment")
+                M.track("mol", stored, M.new_cells(M.values_of(o), src=o["cells"]), top=o["top"], note="alignment")
                 ctx.op(kind)
                 ctx.probe("alignment_stored")
                 verify(ctx, M, set(), None, kind)
@@ -477,12 +509,29 @@ def execute(trace, ctx):
             ctx.op(kind, "raised")
             ctx.violate(P, "operation-raised", f"operation {kind} raised {type(e).__name__}: {e}\n{tb[-700:]}", key=kind)
             return
+    verify(ctx, M, set(), None, "end of history", force=True)
     ctx.nontrivial = True
 
 
-def verify(ctx, M, touched, expected, label):
-    """Compare every tracked object with the model.  `touched`: cells the operation may change;
-    `expected`: {cell: {field: value}} for them.  Returns True when everything agreed."""
+def verify(ctx, M, touched, expected, label, force=False):
+    """Record what the operation should have done in the model and -- every `stride` operations -- compare every tracked
+    object with the model.  `touched`: cells the operation addressed; `expected`: {cell: {field: value}} for them.
+    Fields predicted by the model but not yet observed are compared to 1e-9, everything else bitwise.
+    Returns True when a comparison took place and everything agreed (None when the harness did not look)."""
+    if expected:
+        for c, fields in expected.items():
+            for f, val in fields.items():
+                M.cells[c][f] = None if val is None else (np.array(val, dtype=float, copy=True) if isinstance(val, np.ndarray) else val)
+                M.dirty.setdefault(c, set()).add(f)
+    M.pending_labels.append(label)
+    M.since += 1
+    if not force and M.stride > 1 and M.since < M.stride:
+        return None
+    M.since = 0
+    labels = M.pending_labels[-4:]
+    M.pending_labels = []
+    label = label if len(labels) <= 1 else " <- ".join(reversed(labels))
+    key_label = labels[-1] if labels else label
     ok = True
     actual = {}     # cell -> observed dict (from the first object that shows it)
     for oi, o in enumerate(M.objs):
@@ -496,20 +545,21 @@ def verify(ctx, M, touched, expected, label):
             return False
         for c, v in zip(o["cells"], vals):
             model = M.cells[c]
+            dirty = M.dirty.get(c, ())
             for f in FIELDS:
-                if c in touched and expected is not None and f in expected.get(c, {}):
-                    want = expected[c][f]
+                if f in dirty:
+                    want = model[f]
                     tol = 1e-9 * max(1.0, float(np.max(np.abs(want)))) if f in ("pos", "vel") and want is not None else 0.0
                     if not same_value(f, v[f], want, tol):
                         ctx.violate(P, "operation-result", f"after {label}: object {oi} ({o['kind']}, {o['note']}) field {f} "
                                                            f"is {_show(v[f])}, the operation should give {_show(want)}",
-                                    key=label.split(":")[0] + ":" + f + (":view" if o["note"] == "view" else ""))
+                                    key=key_label.split(":")[0] + ":" + f + (":view" if o["note"] == "view" else ""))
                         ok = False
                 else:
                     if not same_value(f, v[f], model[f]):
                         ctx.violate(P, "isolation", f"after {label}: field {f} of object {oi} ({o['kind']}, {o['note']}) changed "
                                                     f"from {_show(model[f])} to {_show(v[f])} although the operation did not "
-                                                    f"address it", key=label.split(":")[0] + ":" + f)
+                                                    f"address it", key=key_label.split(":")[0] + ":" + f)
                         ok = False
             if c in actual:
                 for f in FIELDS:
@@ -520,12 +570,13 @@ def verify(ctx, M, touched, expected, label):
                 actual[c] = v
         if not ok:
             return False
-    # sync the model with what was observed for the touched cells
-    for c in touched:
+    # sync the model with what was observed for the predicted cells
+    for c in list(M.dirty):
         if c in actual:
-            for f in FIELDS:
+            for f in M.dirty[c]:
                 val = actual[c][f]
                 M.cells[c][f] = None if val is None else (np.array(val, copy=True) if isinstance(val, np.ndarray) else val)
+            del M.dirty[c]
     return ok
 
 
